@@ -597,7 +597,6 @@ class _Base:
     ndim = 0
     size = 1
     __hash__ = None
-    __array_priority__ = 1000
 
     def __getitem__(self, k):
         if k == () or k is Ellipsis:
@@ -712,6 +711,10 @@ class SR(_Base, numbers.Real):
             return NotImplemented
         if isinstance(o, SC):
             return SC(self, SR(_ZERO)) * o
+        if self.d is None and o.d is None and z3.is_const(self.n) and self.n.eq(o.n) and Ctx.cur is not None:
+            rad = Ctx.cur.data.get(("sqrtof", self.n.sexpr()))
+            if rad is not None:
+                return rad          # sqrt(t)*sqrt(t) == t by construction
         n = t_mul(self.n, o.n)
         if _cval(n) == 0:
             return SR(_ZERO)
@@ -930,6 +933,7 @@ class SR(_Base, numbers.Real):
             c.need(self.n * self.d >= 0)
             c.pc.append(z3.And(s >= 0, s * s * self.d == self.n))
         c.data[key] = s
+        c.data[("sqrtof", s.sexpr())] = self
         return SR(s)
 
     def exp(self):
@@ -1195,6 +1199,12 @@ class SC(_Base, numbers.Complex):
     @property
     def imag(self):
         return self.i
+
+    def sqrt(self):
+        if _cval(self.i.n) == 0:
+            # real non-negative value carried in a complex scalar (e.g. a variance)
+            return SC(self.r.sqrt())
+        raise TypeError("complex square root not encodable")
 
     def exp(self):
         m = self.r.exp()
